@@ -42,6 +42,7 @@ type c11sys struct {
 	unit    string
 	direct  bool
 	do      func(remote string, hdr [][2]string, second bool) (int, bool) // second: the other route with the same declaration
+	free    func(remote string, second bool) (int, bool)                  // the same path under the verb that declares no limit (nil in direct mode)
 	trust   bool
 	trusted map[string]bool
 	decl    string
@@ -165,7 +166,9 @@ func c11build(s *sim.Sim, p *sim.Params) (*c11sys, func() *c11sys) {
 	// the declaration is spelled the ways the language accepts: bare or quoted, any letter case,
 	// blanks around the unit — the declared limit is the same in all of them
 	mkSrc := func(decl string) string {
-		return fmt.Sprintf("@ GET /limited {\n  + ratelimit(%s)\n  > {marker: \"%s\"}\n}\n\n@ GET /free {\n  > {marker: \"free\"}\n}\n\n@ POST /limited2 {\n  + ratelimit(%s)\n  > {marker: \"%s\"}\n}\n", decl, c11Marker, decl, c11Marker)
+		// (each limited path is also declared for another verb, without a limit: after the limited
+		// verb in one case, in front of it in the other)
+		return fmt.Sprintf("@ GET /limited {\n  + ratelimit(%s)\n  > {marker: \"%s\"}\n}\n\n@ POST /limited {\n  > {marker: \"free-verb\"}\n}\n\n@ GET /free {\n  > {marker: \"free\"}\n}\n\n@ GET /limited2 {\n  > {marker: \"free-verb\"}\n}\n\n@ POST /limited2 {\n  + ratelimit(%s)\n  > {marker: \"%s\"}\n}\n", decl, c11Marker, decl, c11Marker)
 	}
 	// ... and under any of the names the unit goes by (s, second, hr, h, d, minute, m)
 	spelled := u.name
@@ -211,6 +214,14 @@ func c11build(s *sim.Sim, p *sim.Params) (*c11sys, func() *c11sys) {
 			}
 			r := sv.do(rq)
 			return r.status, strings.Contains(r.body, c11Marker)
+		}
+		z.free = func(remote string, second bool) (int, bool) {
+			rq := simReq{method: "POST", path: "/limited", remote: remote}
+			if second {
+				rq = simReq{path: "/limited2", remote: remote}
+			}
+			r := sv.do(rq)
+			return r.status, strings.Contains(r.body, "free-verb")
 		}
 		return &z
 	}
@@ -399,6 +410,14 @@ func c11Run(s *sim.Sim, p *sim.Params) {
 		if pl.hangsUp && y.direct && k%2 == 0 {
 			hdr = append(hdr, [2]string{"X-Sim-Hangup", "1"})
 			s.Fault("client-hangs-up-mid-request")
+		}
+		if y.free != nil && (k+2*ci)%5 == 0 {
+			// the same path under its other verb, which declares no limit: never limited, and
+			// no business of the limited verb's budget
+			if st, ok := y.free(remote, (k+ci)%2 == 0); st != 200 || !ok {
+				s.Fail("oracle", "unlimited-verb-affected:unit="+y.unit, fmt.Sprintf("client %s asked for the verb of a limited path that declares no limit and was answered %d (its own body: %v)", pl.host, st, ok))
+			}
+			s.Probe("unlimited-verb-of-limited-path")
 		}
 		at := s.Now()
 		// a third of a client's requests go to the second route, which declares the same limit:
